@@ -9,7 +9,10 @@
           `HighestAverages` evaluations it performs (votelib/evaluate/proportional.py).
 
   Import-free (core Lean only).  Districts and parties are positions (row / column index) of a full
-  `m × n` matrix (`List (List _)`, row = district); a zero cell is an explicit `0` entry.
+  `m × n` matrix (`List (List _)`, row = district).  A zero cell is an explicit `0` entry or a party key missing
+  from the district's dict: since fix ac330c6 `_labeled` reads `quotients[d].get(party, 0)` (L723/L733), as
+  `_initial_solution` and `_initial_party_coefs` always did, so both spellings have quotient 0 and are the same
+  matrix here.
 -/
 import VotelibModel.Core
 import VotelibModel.Py
@@ -100,7 +103,7 @@ def maxRat : List Rat → Option Rat
     | none => some x
     | some y => some (if x < y then y else x)
 
-/-- the `while rem_seats > 0 and quotients` loop of `HighestAverages.evaluate` (proportional.py L451-475).
+/-- the `while rem_seats > 0 and quotients` loop of `HighestAverages.evaluate` (proportional.py L435-459).
     The sorted quotient list with `bisect` re-insertion is modelled as the pool of current quotients from
     which the batch of maximal ones is taken (every candidate is in the pool exactly once between
     iterations: the default cap `n_seats` can only bind when no seat is left). -/
@@ -117,7 +120,7 @@ def haLoop (div : Nat → Rat) (votes : List Rat) : Nat → Nat → List Nat →
       else haLoop div votes fuel (rem - batch.length)
              (List.zipWith (fun s qv => if qv == mx then s + 1 else s) seats quots)
 
-/-- `HighestAverages(div).evaluate(votes, n)` (proportional.py L423-480) with `prev_gains = max_seats = {}`
+/-- `HighestAverages(div).evaluate(votes, n)` (proportional.py L407-464) with `prev_gains = max_seats = {}`
     and a divisor function that is positive at 0 (both rules in scope).  With `n = 0` (or no candidate) the
     quotient dictionary is empty and the `zip(*...)` unpacking raises `ValueError`. -/
 def haEvaluate (div : Nat → Rat) (votes : List Rat) (n : Nat) : Except Err HARes :=
@@ -128,13 +131,13 @@ def sumRat (l : List Rat) : Rat := l.foldl (· + ·) 0
 def colOf (V : Mat Rat) (j : Nat) : List Rat := V.map (fun r => r.getD j 0)
 def nCols (V : Mat Rat) : Nat := (V.headD []).length
 
-/-- proportional.py L836-840: the `Tie` of a per-party allocation hands one seat to each of the first `k`
+/-- proportional.py L820-824: the `Tie` of a per-party allocation hands one seat to each of the first `k`
     tied districts in sorted order (positions ascending) -/
 def tieSpread (seats : List Nat) (batch : List Nat) (k : Nat) : List Nat :=
   let sel := batch.take k
   (List.range seats.length).map (fun i => seats.getD i 0 + (if sel.contains i then 1 else 0))
 
-/-- one column of `_initial_solution` (proportional.py L826-842) -/
+/-- one column of `_initial_solution` (proportional.py L810-826) -/
 def initialColumn (div : Nat → Rat) (V : Mat Rat) (j k : Nat) : Except Err (List Nat) :=
   if k = 0 then .ok (V.map fun _ => 0)
   else match haEvaluate div (colOf V j) k with
@@ -155,7 +158,7 @@ def partySeats (div : Nat → Rat) (V : Mat Rat) (total : Nat) : Except Err (Lis
   | .error e => .error e
   | .ok r => if r.tie.isSome then .error (.other "MarginalTie") else .ok r.seats
 
-/-- `_initial_solution` (proportional.py L813-843); result row = district -/
+/-- `_initial_solution` (proportional.py L797-827); result row = district -/
 def initialSolution (div : Nat → Rat) (V : Mat Rat) (total : Nat) : Except Err (Mat Nat) :=
   match partySeats div V total with
   | .error e => .error e
@@ -171,7 +174,7 @@ def districtSeats (div : Nat → Rat) (V : Mat Rat) (total : Nat) : Except Err (
   | .error e => .error e
   | .ok r => if r.tie.isSome then .error (.other "MarginalTie") else .ok r.seats
 
-/-- one party of `_initial_party_coefs` (proportional.py L858-883): `(max lowcoef, min highcoef)` over the
+/-- one party of `_initial_party_coefs` (proportional.py L842-867): `(max lowcoef, min highcoef)` over the
     districts where the party has votes; `none` stands for `INF` -/
 def coefBounds (q : Rat) (vcol : List Rat) (xcol : List Nat) : Rat × Option Rat :=
   (List.zip vcol xcol).foldl (fun (acc : Rat × Option Rat) (vx : Rat × Nat) =>
@@ -191,21 +194,21 @@ def initialPartyCoef (q : Rat) (vcol : List Rat) (xcol : List Nat) : Rat :=
 def initialPartyCoefs (q : Rat) (V : Mat Rat) (x : Mat Nat) : List Rat :=
   (List.range (nCols V)).map (fun j => initialPartyCoef q (colOf V j) (x.map (fun r => r.getD j 0)))
 
-/-- state of the tie-and-transfer loop (proportional.py L575-585): seat matrix, district and party multipliers -/
+/-- state of the tie-and-transfer loop (proportional.py L559-569): seat matrix, district and party multipliers -/
 structure State where
   x : Mat Nat
   dc : List Rat
   pc : List Rat
 deriving Repr
 
-/-- `_calc_quots` (proportional.py L777-791) as a function of the cell -/
+/-- `_calc_quots` (proportional.py L761-775) as a function of the cell -/
 def quot (V : Mat Rat) (s : State) (i j : Nat) : Rat := vget V i j * s.dc.getD i 0 * s.pc.getD j 0
 
-/-- `_is_upgradable` (proportional.py L761-766) -/
+/-- `_is_upgradable` (proportional.py L745-750) -/
 def isUp (q qt : Rat) (seats : Nat) : Bool :=
   ((Py.pyInt qt : Int) : Rat) == qt - q && ((seats : Rat) + 1 - q == qt)
 
-/-- `_is_downgradable` (proportional.py L768-774) -/
+/-- `_is_downgradable` (proportional.py L752-758) -/
 def isDown (q qt : Rat) (seats : Nat) : Bool :=
   ((Py.pyInt qt : Int) : Rat) == qt - q && ((seats : Rat) - q == qt) && decide (seats ≥ 1)
 
@@ -221,19 +224,19 @@ def lookupKey {α : Type} (l : List (Nat × α)) (k : Nat) : Option α :=
   | some e => some e.2
   | none => none
 
-/-- first inner loop of `_labeled` (proportional.py L735-744) -/
+/-- first inner loop of `_labeled` (proportional.py L719-728); `qt d p` is `quotients[d].get(party, 0)` -/
 def phase1 (q : Rat) (qt : Nat → Nat → Rat) (x : Mat Nat) (n : Nat) (labD : LabD) (labP : LabP) : LabP :=
   labD.foldl (fun lp e =>
     (List.range n).foldl (fun lp p =>
       if !hasKey lp p && isDown q (qt e.1 p) (mget x e.1 p) then lp ++ [(p, e.1)] else lp) lp) labP
 
-/-- second inner loop of `_labeled` (proportional.py L745-754) -/
+/-- second inner loop of `_labeled` (proportional.py L729-738) -/
 def phase2 (q : Rat) (qt : Nat → Nat → Rat) (x : Mat Nat) (m : Nat) (labD : LabD) (labP : LabP) : LabD :=
   labP.foldl (fun ld e =>
     (List.range m).foldl (fun ld d =>
       if !hasKey ld d && isUp q (qt d e.1) (mget x d e.1) then ld ++ [(d, some e.1)] else ld) ld) labD
 
-/-- the `while prev_n_labelings < n_labelings` loop of `_labeled` (proportional.py L733-758) -/
+/-- the `while prev_n_labelings < n_labelings` loop of `_labeled` (proportional.py L717-742) -/
 def labelLoop (q : Rat) (qt : Nat → Nat → Rat) (x : Mat Nat) (m n : Nat) (under : List Nat) :
     Nat → LabD → LabP → LabD × LabP
   | 0, ld, lp => (ld, lp)
@@ -244,11 +247,11 @@ def labelLoop (q : Rat) (qt : Nat → Nat → Rat) (x : Mat Nat) (m n : Nat) (un
     else if lp'.length + ld'.length = lp.length + ld.length then (ld', lp')
     else labelLoop q qt x m n under f ld' lp'
 
-/-- `_labeled` (proportional.py L712-759); at most `m + n` productive rounds exist -/
+/-- `_labeled` (proportional.py L696-743); at most `m + n` productive rounds exist -/
 def labeled (q : Rat) (qt : Nat → Nat → Rat) (x : Mat Nat) (m n : Nat) (under over : List Nat) : LabD × LabP :=
   labelLoop q qt x m n under (m + n + 2) (over.map (fun d => (d, none))) []
 
-/-- path construction of `_augment_result` (proportional.py L651-658): triples `(d, p, d')` meaning one seat
+/-- path construction of `_augment_result` (proportional.py L635-642): triples `(d, p, d')` meaning one seat
     more in cell `(d, p)` and one seat less in cell `(d', p)`.  Popping an empty (default) set is a `KeyError`;
     a path that runs in a cycle pops an emptied set, modelled by running out of fuel. -/
 def augPath (labD : LabD) (labP : LabP) (over : List Nat) : Nat → Nat → Except Err (List (Nat × Nat × Nat))
@@ -268,7 +271,7 @@ def augPath (labD : LabD) (labP : LabP) (over : List Nat) : Nat → Nat → Exce
 def madd1 (M : Mat Nat) (i j : Nat) : Mat Nat := M.modify i (fun r => r.modify j (· + 1))
 def msub1 (M : Mat Nat) (i j : Nat) : Mat Nat := M.modify i (fun r => r.modify j (· - 1))
 
-/-- the update loop of `_augment_result` (proportional.py L659-669); taking a seat from a cell without
+/-- the update loop of `_augment_result` (proportional.py L643-653); taking a seat from a cell without
     seats is the `KeyError` of `result[district][party] -= 1` on a missing key -/
 def applyPath : List (Nat × Nat × Nat) → Mat Nat → Except Err (Mat Nat)
   | [], x => .ok x
@@ -305,7 +308,7 @@ def minFold : List Rat → Option Rat
   | [] => none
   | b :: rest => some (rest.foldl (fun a c => if c < a then c else a) b)
 
-/-- `_adj_coef` (proportional.py L671-710).  `signpost / 0` is a `ZeroDivisionError`. -/
+/-- `_adj_coef` (proportional.py L655-694).  `signpost / 0` is a `ZeroDivisionError`. -/
 def adjCoef (q : Rat) (qt : Nat → Nat → Rat) (x : Mat Nat) (m n : Nat) (labD : LabD) (labP : LabP) :
     Except Err Rat :=
   let ac := alphaCells q qt x m n labD labP
@@ -325,7 +328,7 @@ inductive Step where
   | update (s : State) (c : Rat)  -- multipliers adjusted by `c`
 deriving Repr
 
-/-- one iteration of the `while True` loop (proportional.py L587-634).
+/-- one iteration of the `while True` loop (proportional.py L571-618).
     `_districts_unsat` iterates a frozenset; for the integer district keys of the correspondence this is
     ascending order, which is what `under` / `over` are here. -/
 def step (q : Rat) (V : Mat Rat) (tgt : List Nat) (s : State) : Except Err Step :=
@@ -368,13 +371,13 @@ def run (q : Rat) (V : Mat Rat) (tgt : List Nat) : Nat → State → Nat → Lis
     | .ok (.transfer s') => run q V tgt f s' (nt + 1) ups
     | .ok (.update s' c) => run q V tgt f s' nt (c :: ups)
 
-/-- the state before the loop (proportional.py L575-585) -/
+/-- the state before the loop (proportional.py L559-569) -/
 def initState (div : Nat → Rat) (q : Rat) (V : Mat Rat) (total : Nat) : Except Err State :=
   match initialSolution div V total with
   | .error e => .error e
   | .ok x0 => .ok { x := x0, dc := V.map (fun _ => 1), pc := initialPartyCoefs q V x0 }
 
-/-- `BiproportionalEvaluator(div, apportioner).evaluate(votes, n_seats)` (proportional.py L563-634).
+/-- `BiproportionalEvaluator(div, apportioner).evaluate(votes, n_seats)` (proportional.py L547-618).
     `total` is the number of seats the parties are apportioned (`n_seats` or the sum of the per-district
     dictionary); `rows = none` means "districts apportioned by the same divisor rule", `some l` is an explicit
     per-district dictionary / the result of a custom apportioner. -/
